@@ -225,6 +225,34 @@ def generate():
         under = (len(hw) == 1 and [ast.unparse(x) for x in hw[0].body] == ["return self._sink.tasks_to_complete()"] and
                  not any(isinstance(n, ast.Call) and ast.unparse(n.func) == "self._sink.tasks_to_complete" and
                          not any(n is x for x in ast.walk(hw[0])) for n in ast.walk(httc)))
+        # which lock: the one the WRITER of the sink holds - the queue lock for an enqueued handler (the worker writes
+        # under it), the handler lock otherwise; and a non-owner process has no tasks to wait for
+        lock_expr = None
+        if len(hw) == 1:
+            e = hw[0].items[0].context_expr
+            if isinstance(e, ast.Name):
+                asg = [st for st in httc.body if isinstance(st, ast.Assign) and len(st.targets) == 1 and
+                       isinstance(st.targets[0], ast.Name) and st.targets[0].id == e.id]
+                lock_expr = ast.unparse(asg[-1].value) if asg else None
+            else:
+                lock_expr = ast.unparse(e)
+        lock_ok = lock_expr in ("self._queue_lock if self._enqueue else self._protected_lock()",
+                                "self._protected_lock() if not self._enqueue else self._queue_lock")
+        if not lock_ok and len(hw) == 1:
+            # the same choice written as if/else around the assignment
+            for st in httc.body:
+                if isinstance(st, ast.If) and ast.unparse(st.test) == "self._enqueue" and len(st.body) == 1 and len(st.orelse) == 1 \
+                        and ast.unparse(st.body[0]).endswith("= self._queue_lock") and \
+                        ast.unparse(st.orelse[0]).endswith("= self._protected_lock()"):
+                    lock_ok = True
+        owner_only = any(isinstance(st, ast.If) and ast.unparse(st.test) in (
+            "self._enqueue and self._owner_process_pid != os.getpid()",
+            "self._enqueue and os.getpid() != self._owner_process_pid") and
+            [ast.unparse(x) for x in st.body] == ["return []"] for st in httc.body)
+        body += "/-- `Handler.tasks_to_complete` takes the lock the sink's WRITER holds (queue lock when enqueued, handler lock otherwise) -/\n"
+        body += "def tasksSnapshotLockIsWriters : Bool := %s\n" % ("true" if lock_ok else "false")
+        body += "/-- … and returns no task in a process that does not own the enqueued handler -/\n"
+        body += "def tasksOwnerOnly : Bool := %s\n" % ("true" if owner_only else "false")
         body += "/-- `AsyncSink.tasks_to_complete` snapshots `self._tasks`; `Handler.tasks_to_complete` calls it under the lock -/\n"
         body += "def asyncSnapshotUnderLock : Bool := %s\n" % ("true" if snap and under else "false")
         ct = find_func(stree, "_complete_task", cls="AsyncSink")
@@ -238,6 +266,23 @@ def generate():
         order.sort()
         if [k for _, k in order].count("await") != 1:
             raise Unsupported("AsyncSink._complete_task does not await the task exactly once")
+        # WHEN is "the running loop" read?  inside `_complete_task` (a coroutine: its body runs when the object returned
+        # by complete() is AWAITED), and nowhere at collection time: tasks_to_complete takes EVERY task, unfiltered
+        names_in = lambda node: {n.id for n in ast.walk(node) if isinstance(n, ast.Name)} | \
+            {n.attr for n in ast.walk(node) if isinstance(n, ast.Attribute)}   # noqa: E731
+        collect_clean = (len(rets) == 1 and isinstance(rets[0].value, ast.ListComp) and
+                         len(rets[0].value.generators) == 1 and not rets[0].value.generators[0].ifs and
+                         not ({"get_running_loop", "get_task_loop", "_loop", "get_event_loop"} & names_in(ttc)) and
+                         len(ttc.body) == len([st for st in ttc.body if isinstance(st, ast.Return) or
+                                               (isinstance(st, ast.Expr) and isinstance(st.value, ast.Constant))]))
+        loop_vars = [st.targets[0].id for st in ct.body if isinstance(st, ast.Assign) and len(st.targets) == 1 and
+                     isinstance(st.targets[0], ast.Name) and ast.unparse(st.value) == "get_running_loop()"]
+        at_await = isinstance(ct, ast.AsyncFunctionDef) and (
+            (len(loop_vars) == 1 and any(isinstance(n, ast.If) and loop_vars[0] in names_in(n.test) and
+                                         "get_task_loop" in names_in(n.test) for n in ast.walk(ct))) or
+            any(isinstance(n, ast.If) and {"get_running_loop", "get_task_loop"} <= names_in(n.test) for n in ast.walk(ct)))
+        body += "/-- the loop whose tasks are waited for is read when the object is AWAITED (inside `_complete_task`), and `tasks_to_complete` collects every task unfiltered -/\n"
+        body += "def asyncLoopReadAtAwait : Bool := %s\n" % ("true" if collect_clean and at_await else "false")
         body += "/-- `_complete_task` returns at once for a task that belongs to another event loop -/\n"
         body += "def asyncSkipsForeignLoop : Bool := %s\n\n" % ("true" if [k for _, k in order] == ["skip", "await"] else "false")
         # what a child inherits by pickling (Handler.__getstate__ / __setstate__): which attributes are blanked, which
